@@ -35,6 +35,20 @@ def init (m : Mem) : Option HeapA × Mem :=
 
 variable (key : Nat → Int)
 
+/-- `ptrheap_create(compar, setreccookie, cookie, N, ptrs)` (`none` = NULL).  The allocation sites in the C's order:
+`malloc(sizeof(struct ptrheap))`; `ptrlist_init(N)` = `elasticarray_init(N, 8)`, i.e. `malloc(sizeof(struct
+elasticarray))` and then — only if `N > 0` — `realloc(NULL, 8 * N)` for the buffer (`EArray.init`; for `N = 0` the
+resize frees the NULL buffer and asks for nothing).  If the structure is refused nothing was allocated; if
+`ptrlist_init` fails it has released what it took (`elasticarray_free`) and `err1` frees the structure.  After that
+nothing can fail: the elements are copied in, heapified bottom-up and reported (`Heap.create`, C13). -/
+def create (ptrs : List Nat) (m : Mem) : Option HeapA × Mem :=
+  match m.malloc structSize with
+  | (false, m1) => (none, m1)
+  | (true, m1) =>
+    match EArray.init ptrs.length SeqMap.ptrLen m1 with
+    | (some a, m2) => (some { h := Heap.create key ptrs, alloc := a.alloc }, m2)
+    | (none, m2) => (none, m2.free false)
+
 /-- `ptrheap_add(H, ptr)`: `false` is the -1 return -/
 def add (ha : HeapA) (e : Nat) (m : Mem) : Bool × HeapA × Mem :=
   match EArray.append (shape ha.h.a.size ha.alloc) (SeqMap.encPtr e) 1 SeqMap.ptrLen m with
